@@ -55,6 +55,7 @@ def build_grids(g):
 
 class C08(Property):
     id = "C08"
+    anchors = ('finam.sdk.output:Output.push_data', 'finam.sdk.output:Output._interpolate', 'finam.sdk.input:Input._convert_and_check', 'finam.data.tools.core:prepare')
     technique = "reference-model monitor on recorded push/pull histories of a real link: nearest-publication model + dimensional unit oracle + located-value encoding"
     rule = (
         "random interleavings of publications (payload forms: scalar, list, 0/1/n-d array, flat-in-grid-order, masked, Quantity in own/"
